@@ -3,4 +3,5 @@ let () =
   | _ :: "c18" :: rest -> C18.run rest
   | _ :: "c12" :: rest -> C12.run rest
   | _ :: ("c10" | "c11") :: rest -> C10.run rest
+  | _ :: ("c05" | "c14") :: rest -> C05.run rest
   | _ -> prerr_endline "usage: model <property> ..."; exit 2
